@@ -472,6 +472,8 @@ struct Args {
     uint64_t seed = 1;
     int shard = 0, nshards = 1;
     std::set<std::string> known;   // signatures listed in known_findings.txt for this property
+    bool isolate = true;     // run a sample of the generated cases in a forked child (pristine process state)
+    long isolate_n = 60;     // about this many per rapidcheck part and shard (a fork of an ASan process costs 20-70 ms here)
     double scale = 1.0;      // multiplies case counts (driver uses it for thorough tiers / mutant sweeps)
     bool quick() const { return tier == "quick"; }
     long n(long quick_n, long thorough_n) const {
@@ -491,9 +493,16 @@ static inline Args parse_args(int argc, char **argv) {
         else if (k == "--failing") a.failing = nx();
         else if (k == "--shard") { std::string s = nx(); sscanf(s.c_str(), "%d/%d", &a.shard, &a.nshards); }
         else if (k == "--scale") a.scale = atof(nx().c_str());
+        else if (k == "--no-isolate") a.isolate = false;
+        else if (k == "--isolate-n") a.isolate_n = atol(nx().c_str());
         else if (k == "--known") { std::string s = nx(), t; std::istringstream is(s); while (std::getline(is, t, ',')) if (!t.empty()) a.known.insert(t); }
     }
     if (a.seed == 0) a.seed = 1;
+    if (getenv("VERIF_NO_ISOLATE")) a.isolate = false;
+    if (a.tier == "thorough" && a.isolate_n == 60) a.isolate_n = 300;
+#if defined(FLAVOUR_TSAN)
+    a.isolate = false;   // ThreadSanitizer and fork do not mix well; the TSan runner creates its own threads per case
+#endif
     return a;
 }
 
